@@ -21,20 +21,21 @@ var vErrConn = errors.New("verif: connection fault")
 // was written and the state of the read deadline.
 type vConn struct {
 	net.Conn
-	ops       int    // operations performed so far
-	failAt    int    // the operation with this ordinal (1-based) fails; 0 = never
-	dead      bool   // after a failure or Close every operation fails
-	closed    int    // number of Close calls
-	armed     bool   // last SetReadDeadline argument was non-zero
-	wArmed    bool   // a write deadline is set
-	deadlines int    // number of SetReadDeadline calls
-	wrote     []byte // concatenation of all successful writes
-	writes    [][]byte
-	onWrite   func(b []byte) // hook: called after a successful write (may block / hand over)
-	partial   int            // a failing write first delivers this many bytes
-	in        []byte         // bytes to be read
-	readStall chan struct{}  // if non-nil, Read blocks on it when `in` is empty (until closed)
-	yield     bool           // every connection call is a scheduling point
+	ops        int    // operations performed so far
+	failAt     int    // the operation with this ordinal (1-based) fails; 0 = never
+	dead       bool   // after a failure or Close every operation fails
+	closed     int    // number of Close calls
+	armed      bool   // last SetReadDeadline argument was non-zero
+	wArmed     bool   // a write deadline is set
+	deadlines  int    // number of SetReadDeadline calls
+	wrote      []byte // concatenation of all successful writes
+	writes     [][]byte
+	onWrite    func(b []byte) // hook: called after a successful write (may block / hand over)
+	partial    int            // a failing write first delivers this many bytes
+	in         []byte         // bytes to be read
+	readStall  chan struct{}  // if non-nil, Read blocks on it when `in` is empty (until closed)
+	writeStall chan struct{}  // if non-nil, Write blocks on it (until the connection is closed)
+	yield      bool           // every connection call is a scheduling point
 }
 
 func (v *vConn) op() error {
@@ -54,6 +55,9 @@ func (v *vConn) op() error {
 }
 
 func (v *vConn) Write(b []byte) (int, error) {
+	if v.writeStall != nil {
+		<-v.writeStall // the peer has stopped reading: blocked until the connection is closed
+	}
 	if err := v.op(); err != nil {
 		n := v.partial
 		if n > len(b) {
@@ -93,6 +97,13 @@ func (v *vConn) Close() error {
 		case <-v.readStall:
 		default:
 			close(v.readStall)
+		}
+	}
+	if v.writeStall != nil {
+		select {
+		case <-v.writeStall:
+		default:
+			close(v.writeStall)
 		}
 	}
 	return nil
